@@ -14,6 +14,7 @@ import (
 	"fmt"
 	"hash/fnv"
 	"os"
+	"path/filepath"
 	"runtime"
 	"sort"
 	"strings"
@@ -85,6 +86,31 @@ type Config struct {
 	KeepLeftovers bool
 	KeepLog       bool
 	NoTypecheck   bool
+	// ViaFile: the text is written to a content-addressed file (once: an unchanged file keeps
+	// its modification time) and parsed with parser.ParseFile instead of parser.ParseString.
+	ViaFile bool `json:",omitempty"`
+}
+
+// srcFile returns the path of the content-addressed file holding src.
+func srcFile(src string) (string, error) {
+	dir := os.Getenv("VERIF_OUTDIR")
+	if dir == "" {
+		dir = os.TempDir()
+	}
+	dir = filepath.Join(dir, "srcfiles")
+	if err := os.MkdirAll(dir, 0o755); err != nil {
+		return "", err
+	}
+	h := sha256.Sum256([]byte(src))
+	path := filepath.Join(dir, hex.EncodeToString(h[:10])+".grits")
+	if _, err := os.Stat(path); err == nil {
+		return path, nil
+	}
+	tmp := fmt.Sprintf("%s.%d.tmp", path, os.Getpid())
+	if err := os.WriteFile(tmp, []byte(src), 0o644); err != nil {
+		return "", err
+	}
+	return path, os.Rename(tmp, path)
 }
 
 type Blocked struct {
@@ -790,7 +816,20 @@ func Run(t *testing.T, src string, cfg Config) *Result {
 		}()
 		synctest.Test(t, func(t *testing.T) {
 			start := time.Now()
-			procs, assumed, env, err := parser.ParseString(src)
+			var procs []*process.Process
+			var assumed []process.Name
+			var env *process.GlobalEnvironment
+			var err error
+			if cfg.ViaFile {
+				path, ferr := srcFile(src)
+				if ferr != nil {
+					res.ModelErrors = append(res.ModelErrors, "cannot write the source file: "+ferr.Error())
+					return
+				}
+				procs, assumed, env, err = parser.ParseFile(path)
+			} else {
+				procs, assumed, env, err = parser.ParseString(src)
+			}
 			if err != nil {
 				res.ParseErr = err.Error()
 				return
